@@ -353,7 +353,7 @@ fn main() {
             for m in mm.iter().take(10) {
                 // queries to a proved *specification* decider (S4 chart recogniser): a disagreement is
                 // a concrete input on which the implementation departs from the property
-                let is_spec = m.request.starts_with("cfg q ") || m.request.starts_with("json v ");
+                let is_spec = m.request.starts_with("cfg q ") || m.request.starts_with("json v ") || m.request.starts_with("num sat ");
                 rep.fail(
                     if is_spec { "spec" } else { "model" },
                     &format!("{}:{}", p.id.to_lowercase(), if is_spec { "spec-mismatch" } else { "model-mismatch" }),
